@@ -63,6 +63,7 @@ pub struct W {
     pub set_algebra: u32,
     pub set_par: u32,
     pub set_serde: u32,
+    pub z: u32,
 }
 
 fn base_w() -> W {
@@ -111,7 +112,9 @@ pub fn profile(prop: Prop, thorough: bool) -> Profile {
         w: base_w(),
     };
     match prop {
-        C01 => {}
+        C01 => {
+            p.w.z = 12;
+        }
         C02 => {
             // long histories, every call measured; big maps come from InsertMany
             p.many_max = if thorough { 40_000 } else { 5_000 };
@@ -174,6 +177,7 @@ pub fn profile(prop: Prop, thorough: bool) -> Profile {
             p.w.set_misc = 3;
             p.w.set_iter = 2;
             p.w.set_clone = 1;
+            p.w.z = 16;
         }
         C06 => {
             p.family = 1;
@@ -191,6 +195,7 @@ pub fn profile(prop: Prop, thorough: bool) -> Profile {
             p.w.set_clone = 2;
             p.w.set_retain = 1;
             p.w.set_drain_filter = 1;
+            p.w.z = 6;
         }
         C07 => {
             p.max_ops = if thorough { 40 } else { 28 };
@@ -568,8 +573,52 @@ pub fn op_strategy(p: &Profile) -> BoxedStrategy<Op> {
     add(w.set_clone, (0u8..2, any::<bool>()).prop_map(|(d, from)| Op::SetClone { dst: d, src: 1 - d, from }).boxed());
     add(w.set_algebra, Just(Op::SetAlgebra).boxed());
     add(w.set_par, (0u8..6, 1u8..4).prop_map(|(threads, reps)| Op::SetPar { threads, reps }).boxed());
+    add(w.z, zop().prop_map(Op::Z).boxed());
     add(w.set_serde, (0u8..2, any::<bool>()).prop_map(|(s, in_place)| Op::SetSerde { s, in_place }).boxed());
     Union::new_weighted(v).boxed()
+}
+
+fn zop() -> BoxedStrategy<crate::zst::ZOp> {
+    use crate::zst::ZOp::*;
+    let t = || proptest::option::of(any::<u8>());
+    prop_oneof![
+        6 => Just(Insert),
+        5 => any::<u8>().prop_map(Dup),
+        6 => Just(Remove),
+        2 => Just(RemoveEntry),
+        2 => Just(Get),
+        5 => (0u16..200).prop_map(Reserve),
+        2 => (0u16..200).prop_map(TryReserve),
+        2 => Just(ShrinkToFit),
+        2 => (0u16..100).prop_map(ShrinkTo),
+        4 => (any::<u8>(), any::<u8>()).prop_map(|(m, k)| Retain(m, k)),
+        4 => (any::<u8>(), any::<u8>(), t(), prop::bool::weighted(0.25)).prop_map(|(m, k, t, f)| DrainFilter(m, k, t, f)),
+        3 => any::<bool>().prop_map(EntryReplace),
+        3 => any::<bool>().prop_map(RawReplace),
+        3 => Just(EntryRemove),
+        3 => Just(RawRemove),
+        2 => Just(OrInsert),
+        2 => Just(Iterate),
+        2 => (t(), prop::bool::weighted(0.25)).prop_map(|(t, f)| Drain(t, f)),
+        1 => t().prop_map(IntoIter),
+        1 => Just(Clear),
+        2 => Just(CloneTo),
+        2 => Just(CloneFrom),
+        6 => Just(Trigger),
+        4 => Just(SetInsert),
+        4 => Just(SetRemove),
+        2 => Just(SetTake),
+        2 => Just(SetReplace),
+        2 => Just(SetGetOrInsert),
+        4 => (0u16..200).prop_map(SetReserve),
+        1 => Just(SetShrink),
+        2 => any::<bool>().prop_map(SetRetain),
+        1 => Just(SetClear),
+        1 => Just(SetIterate),
+        1 => prop::bool::weighted(0.25).prop_map(SetDrain),
+        1 => Just(SetClone),
+    ]
+    .boxed()
 }
 
 fn hmode(w: &[u32; 4]) -> BoxedStrategy<HMode> {
